@@ -30,6 +30,17 @@ def handlers : List (String × Handler) := [
       let clip ← parseBool clip; let sizes ← parseNats sizes
       let k ← parseRats k; let x ← parseRats x
       pure (showExceptRat (evalSimplex clip sizes k x))
+    | _ => none),
+  -- late.sjac <clip> <sizes> <n> <x>: the Jacobian row d out / d kernel of the simplex evaluation over a
+  -- flat kernel of length n = its values on the n unit kernels (the output is linear in the kernel:
+  -- `C19.simplex_output_eq_dot_weights`), or the error the evaluation raises
+  ("late.sjac", fun args => match args with
+    | [clip, sizes, n, x] => do
+      let clip ← parseBool clip; let sizes ← parseNats sizes; let n ← n.toNat?; let x ← parseRats x
+      let unit := fun (j : Nat) => (List.range n).map (fun i => if i = j then (1 : Rat) else 0)
+      pure (match (List.range n).mapM (fun j => evalSimplex clip sizes (unit j) x) with
+        | .ok row => showRats row
+        | .error e => showErr e)
     | _ => none)
 ]
 end Tfl.Driver.LatticeEval
